@@ -99,9 +99,19 @@ theorem strIn_safe (hG : G.Good) (a b c e) (d : Doc) : LeafSafe G cfg (.unicode 
     · exact LeafSafe.good rfl
     · simp only [hG.utf8, if_true]; exact LeafSafe.fault'
 
-theorem textIn_safe (L : LeafLaws F) (hG : G.Good) (p : PrimTy) (d : Doc) : LeafSafe G cfg p d (textIn F G p d) := by
-  cases d <;> simp only [textIn, kindError, hG.leaf, if_true] <;> first | exact LeafSafe.fault' | skip
+theorem textIn_safe (L : LeafLaws F) (hG : G.Good) (bt : Bool) (p : PrimTy) (d : Doc) :
+    LeafSafe G cfg p d (textIn F G bt p d) := by
+  cases d <;> simp only [textIn, kindError, hG.leaf, hG.tutf8, if_true] <;> first | exact LeafSafe.fault' | skip
   case str s => exact leafSafe_ofOutcome L p _ s
+  case bytes bs =>
+    split
+    · split
+      · exact leafSafe_ofOutcome L p _ _
+      · exact LeafSafe.fault'
+    · exact LeafSafe.fault'
+
+theorem boolPass_good (hG : G.Good) : cfg.boolPass G = false := by
+  simp [Cfg.boolPass, hG.mpbool]
 
 theorem binDec_safe (L : LeafLaws F) (enc : BinEnc) (d : Doc) (s : Text) : LeafSafe G cfg (.bytes enc) d (binDec F enc s) :=
   leafSafe_ofOutcome L (.bytes enc) d s
@@ -133,12 +143,12 @@ theorem enumIn_safe (names : List Text) (d : Doc) : LeafSafe G cfg (.enum names)
 theorem leafIn_safe (L : LeafLaws F) (hG : G.Good) (p : PrimTy) (d : Doc) : LeafSafe G cfg p d (leafIn F G cfg p d) := by
   cases p <;> simp only [leafIn]
   case integer k r => split; exact intInMp_safe hG k r d; exact intInJson_safe hG k r d
-  case boolean => exact boolIn_safe hG d
+  case boolean => simp only [boolPass_good hG, Bool.false_eq_true, if_false]; exact boolIn_safe hG d
   case unicode a b c e => exact strIn_safe hG a b c e d
-  case date => exact textIn_safe L hG _ d
-  case time => exact textIn_safe L hG _ d
-  case dateTime => exact textIn_safe L hG _ d
-  case duration => exact textIn_safe L hG _ d
+  case date => exact textIn_safe L hG _ _ d
+  case time => exact textIn_safe L hG _ _ d
+  case dateTime => exact textIn_safe L hG _ _ d
+  case duration => exact textIn_safe L hG _ _ d
   case bytes enc => exact bytesIn_safe L hG enc _ d
   case enum names => exact enumIn_safe names d
 
